@@ -292,7 +292,7 @@ def gen_case(rng):
         use_cfg = rng.random() < 0.4
         if use_cfg:
             return {"cls": "addrgroups", "text": text, "native": native, "n_objects": 1,
-                    "kwargs": {"platform": platform, "indent": indent if indent != "\t" else " "}}
+                    "kwargs": {"platform": platform, "indent": indent}}
         return {"cls": "AddrGroup", "text": text, "native": native, "kwargs": {"platform": platform, "indent": indent}}
     if roll < 0.56:
         seq = rng.choice([0, 0, 1, 10, 4294967295])
@@ -319,7 +319,6 @@ def gen_case(rng):
     if heading and rng.random() < 0.6:
         kw["group_by"] = heading
     if rng.random() < 0.35:
-        kw["indent"] = indent if indent != "\t" else "  "
         return {"cls": "acls", "text": text, "native": True, "n_objects": 1, "kwargs": kw}
     return {"cls": "Acl", "text": text, "native": True, "kwargs": kw}
 
